@@ -289,6 +289,9 @@ func judge(s song) {
 	if s.res == 960 && len(s.evs) >= 1 && len(s.evs) <= 2 && len(s.sigs) <= 3 {
 		imported(s, f1)
 	}
+	if len(s.sigs) <= 3 && len(s.evs) <= 2 {
+		edited(s, sq)
+	}
 }
 
 // expectedOf reads the bar model off the public fields of any *Song, however
@@ -394,6 +397,102 @@ func imported(s song, f1 smf.SMF) {
 			for ti, e := range ends {
 				if e != end {
 					report("layout:imported:end-of-track:"+what, s, fmt.Sprintf("%s track %d ends at %d, the last bar ends at %d", name, ti, e, end))
+					return
+				}
+			}
+		}
+	}
+}
+
+// edited: the song that has just been exported is edited in place through its
+// public fields (a bar's signature, the resolution, an event's position, one
+// more bar) and exported again after every edit, in both orders of the two
+// exports: each export must follow the bar model of the song as it is now -
+// nothing may be remembered from an earlier export.
+func edited(s song, sq *sequencer.Song) {
+	for edit := 0; edit < 4; edit++ {
+		what := ""
+		bars := sq.Bars()
+		switch edit {
+		case 0:
+			if len(bars) < 2 {
+				continue
+			}
+			old := bars[0].TimeSig
+			bars[0].TimeSig = [2]uint8{old[0] + 1, old[1]}
+			if int(old[0]+1)*32/int(old[1]) > 255 {
+				bars[0].TimeSig = [2]uint8{1, old[1]}
+			}
+			what = "first-bar-signature-changed"
+		case 1:
+			if sq.Ticks == smf.MetricTicks(96) {
+				sq.Ticks = smf.MetricTicks(960)
+			} else {
+				sq.Ticks = smf.MetricTicks(96)
+			}
+			what = "resolution-changed"
+		case 2:
+			sq.AddBar(sequencer.Bar{TimeSig: [2]uint8{7, 8}})
+			what = "bar-added"
+		case 3:
+			moved := false
+			for _, b := range bars {
+				for _, e := range b.Events {
+					if !moved && e.Pos > 0 {
+						e.Pos--
+						moved = true
+					}
+				}
+			}
+			if !moved {
+				continue
+			}
+			what = "event-moved"
+		}
+		ctx.Eval()
+		ctx.Add("edited_songs_exported", 1)
+		want, end := expectedOf(sq)
+		inside := true
+		for _, w := range want {
+			if w.tick > end {
+				inside = false
+			}
+		}
+		if !inside {
+			ctx.Add("edited_songs_outside_domain", 1)
+			continue
+		}
+		var g0, g1 smf.SMF
+		c := engine.Catch(func() {
+			if edit%2 == 0 {
+				g0 = sq.ToSMF0()
+				g1 = sq.ToSMF1()
+			} else {
+				g1 = sq.ToSMF1()
+				g0 = sq.ToSMF0()
+			}
+		})
+		if c.Panicked {
+			report(c.Sig+":edited:"+what, s, "export of an edited song panicked: "+c.Value)
+			return
+		}
+		for _, nf := range []struct {
+			name string
+			file smf.SMF
+		}{{"SMF0", g0}, {"SMF1", g1}} {
+			got, ends, closed := collect(nf.file)
+			if !closed {
+				report("layout:edited:unterminated-track:"+what, s, "a track lacks its end-of-track")
+				return
+			}
+			w := append([]placed(nil), want...)
+			if d := diffPlaced(w, got); d != "" {
+				report("layout:edited:"+d+":"+what, s, fmt.Sprintf("%s of the song exported, edited (%s, edit step %d of the chain) and exported again: got %v want %v", nf.name, what, edit, render(got), render(w)))
+				return
+			}
+			for ti, e := range ends {
+				if e != end {
+					report("layout:edited:end-of-track:"+what, s, fmt.Sprintf("%s track %d ends at %d, the last bar ends at %d", nf.name, ti, e, end))
 					return
 				}
 			}
